@@ -119,10 +119,36 @@ def _tjob(chunk):
                     got = '%s: %s' % (type(e).__name__, e)
                 if got != ref:
                     bad.append((w, text, lay, i, got[:160]))
+            # layout between a statement keyword and the ( of its header, for a regex that follows the header
+            if rspell is None and w[i] == 'REGEX' and i > 0 and w[i - 1] == 'RPAREN':
+                depth, j = 0, i - 1
+                while j >= 0:
+                    if w[j] == 'RPAREN':
+                        depth += 1
+                    elif w[j] == 'LPAREN':
+                        depth -= 1
+                        if depth == 0:
+                            break
+                    j -= 1
+                if j > 0 and w[j - 1] in ('IF', 'FOR', 'WHILE', 'WITH'):
+                    for lay in ('\n', '/*c*/', ' //c\n', '\xa0'):
+                        text = ' '.join(toks[:j]) + lay + ' '.join(toks[j:])
+                        n += 1
+                        try:
+                            got = text_tree(text)
+                        except Exception as e:
+                            got = '%s: %s' % (type(e).__name__, e)
+                        if got != ref:
+                            bad.append((w, text, 'KW' + lay, i, got[:160]))
     return n, bad
 
 
+KNOWN_HEADER_KW = 'C05: layout between an if/for/while/with keyword and the ( of its header makes a regex literal after the header a division'
+
+
 def classify(w, i, lay, text):
+    if lay.startswith('KW'):
+        return KNOWN_HEADER_KW if lay[2:].strip(' \t\xa0') != '' else 'C05 T: white space between a statement keyword and ( changes the reading of a later `/`'
     if i > 0 and w[i - 1] == 'RPAREN' and lay.strip(' \t') != '' and w[i] == 'REGEX':
         # is this ) the end of an if/for/while/with header?
         depth = 0
